@@ -76,7 +76,7 @@ def _observe(job):
     from copulas.bivariate.base import Bivariate
     from copulas.utils import EPSILON
     rs = np.random.RandomState(seed)
-    df = V.random_table(rs, n, pattern)
+    df = V.random_table(rs, n, pattern, nrow=1100 if seed % 53 == 7 else None)      # now and then a table of more than 1000 rows
     rec = {'n': n, 'vtype': vtype, 'trunc': trunc, 'trees': [], 'ucols': [], 'lik': [], 'sample': '', 'err': '',
            'src': pattern}
     C = P.Classes()
